@@ -104,24 +104,29 @@ func verifRemoteSynAck(x *mc.X, remote, local *verifNode) *pb.SynAck {
 }
 
 func TestVerifC34Handshake(t *testing.T) {
+	if c34ref.InitErr != nil {
+		t.Fatalf("BROKEN-CHECK %v", c34ref.InitErr)
+	}
+	nk := len(c34ref.Keys)
 	type base struct {
 		rec c34ref.Record
 		ops []c34ref.Op
 	}
 	memo := map[int]*base{}
 	mc.Run(t, mc.Config{ID: "C34", Name: "C34-handshake", MaxDev: -1, Params: map[string]interface{}{
-		"keys":        "remote node: 3 fixed secp256k1 keys; local (verifying) node: the next key",
+		"keys":        c34ref.KeyNames,
+		"roles":       "remote node: each key; local (verifying) node: the next key",
 		"underlays":   c34ref.Underlays,
 		"network_ids": []string{"0", "1", "2^64-1"},
 		"entry":       []string{"Handle (record arrives in the Ack)", "Handshake (record arrives in the SynAck)"},
-		"combos":      "all 27 (key, underlay, network): every operator except the per-byte ones; per-byte mutations on the 9 combos with network index = (key+underlay) mod 3 (quick) / all 27 (thorough)",
+		"combos":      "all (key, underlay, network): every operator except the per-byte ones; per-byte mutations on one combo per key (underlay index = key mod 3, network index = (key+underlay) mod 3) in quick / all combos in thorough",
 		"mutations":   "same operator set as C34-aurora-parseaddress, applied to the record the remote node's real Handle produced; for a network id mutation the verifying node runs on the other network and the Ack's NetworkID field claims that network",
 		"own_records": "unmutated: full three-message exchange between two real Services, both directions must accept",
 	}}, func(x *mc.X) {
-		combo := x.Choose(27)
+		combo := x.Choose(nk * 9)
 		ki, ui, ni := combo/9, (combo/3)%3, combo%3
 		nid := c34ref.NetworkIDs[ni]
-		lk := (ki + 1) % 3
+		lk := (ki + 1) % nk
 
 		b := memo[combo]
 		if b == nil {
@@ -130,7 +135,7 @@ func TestVerifC34Handshake(t *testing.T) {
 			sa := verifRemoteSynAck(x, remote, local)
 			a := sa.Ack.Address
 			b = &base{rec: c34ref.Record{Underlay: a.Underlay, Overlay: a.Overlay, Signature: a.Signature, NetworkID: nid}.Clone()}
-			b.ops = c34ref.Ops(b.rec, ki, mc.Thorough() || ni == (ki+ui)%3)
+			b.ops = c34ref.Ops(b.rec, ki, mc.Thorough() || (ui == ki%3 && ni == (ki+ui)%3))
 			memo[combo] = b
 		}
 		op := b.ops[verifChooseIdx(x, len(b.ops))]
@@ -177,6 +182,13 @@ func TestVerifC34Handshake(t *testing.T) {
 		verifTimeout(x, herr)
 		want, why := c34ref.Accept(m)
 		x.Logf("%s err=%v; reference accepts=%v %s", entryName, herr, want, why)
+		if op.Kind == c34ref.OpNone {
+			x.Check(bytes.Equal(m.Overlay, c34ref.OverlayOf(c34ref.PublicKey(ki))), "overlay-is-not-the-keys-overlay", "the remote node's overlay is %x for key %d [%s], SHA3-256(keccak256(X||Y)) is %x", m.Overlay, ki, c34ref.KeyNames[ki], c34ref.OverlayOf(c34ref.PublicKey(ki)))
+			x.Check(bytes.Equal(local.overlay, c34ref.OverlayOf(c34ref.PublicKey(lk))), "overlay-is-not-the-keys-overlay", "the local node's overlay is %x for key %d [%s], SHA3-256(keccak256(X||Y)) is %x", local.overlay, lk, c34ref.KeyNames[lk], c34ref.OverlayOf(c34ref.PublicKey(lk)))
+			if ki >= 3 || lk >= 3 {
+				x.Tag("boundary-key-own-record")
+			}
+		}
 		x.Check(herr != nil || want, "accepts-unauthenticated-"+field+"-"+entryName, "%s accepted a record the reference rejects (%s): %s", entryName, field, why)
 
 		if op.Kind == c34ref.OpNone {
